@@ -33,21 +33,21 @@ template<> struct nth<9> { using type = u128; };
 
 using L = nth<LHS_INDEX>::type;
 
-// lhs: every value for 8-bit types, boundary + random otherwise
-template<class T>
-std::vector<T> lhs_values(std::uint64_t salt)
-{
-    return operands<T>(thorough() ? 40 : 6, salt);
-}
-// rhs: for 8-bit types the TLC core set in the quick tier, every value in the thorough tier
-template<class T>
-std::vector<T> rhs_values(std::uint64_t salt)
+// operand sets.  thorough: 8-bit operands are enumerated completely.  quick: an 8-bit left operand is
+// enumerated completely against the TLC boundary set (tier <= 1) of an 8-bit right operand; everything
+// else uses the TLC boundary set (tier 0) plus seeded random values.
+template<class T, class Other, bool IsLhs>
+std::vector<T> values_for(std::uint64_t salt)
 {
     if constexpr (sizeof(T) == 1) {
-        return thorough() ? all_values<T>() : boundary<T>();
-    } else {
-        return operands<T>(thorough() ? 40 : 6, salt);
+        if (thorough() || (IsLhs && sizeof(Other) == 1)) {
+            return all_values<T>();
+        }
+        if (sizeof(Other) == 1) {
+            return boundary<T>(1);
+        }
     }
+    return operands<T>(thorough() ? 40 : 5, salt);
 }
 
 template<class T>
@@ -139,20 +139,20 @@ void run_conv(sink& out, std::vector<A> const& ls)
 template<class Tag, class R>
 void family(sink& out, bool full)
 {
-    auto ls = lhs_values<L>(LHS_INDEX * 100 + 1);
-    auto rs = rhs_values<R>(LHS_INDEX * 100 + 2);
+    auto ls = values_for<L, R, true>(LHS_INDEX * 100 + 1);
+    auto rs = values_for<R, L, false>(LHS_INDEX * 100 + 2);
     using namespace cnl::_impl;
     run_bin<add_op, Tag>(out, "add", ls, rs);
     run_bin<subtract_op, Tag>(out, "sub", ls, rs);
     run_bin<multiply_op, Tag>(out, "mul", ls, rs);
     run_bin<divide_op, Tag>(out, "div", ls, rs);
     // shifts: boundary lhs only (counts are enumerated 0..130 and max)
-    auto bl = sizeof(L) == 1 ? (thorough() ? all_values_or_boundary<L>() : boundary<L>()) : ls;
+    auto bl = thorough() ? all_values_or_boundary<L>() : boundary<L>(1);
     run_bin<shift_left_op, Tag>(out, "shl", bl, shift_counts<R>());
-    run_conv<Tag, L, R>(out, ls);
+    run_conv<Tag, L, R>(out, operands<L>(thorough() ? 200 : 20, LHS_INDEX * 100 + 4, thorough() ? 2 : 1));
     if (full) {
-        auto bls = boundary<L>();
-        auto brs = boundary<R>();
+        auto bls = boundary<L>(0);
+        auto brs = boundary<R>(0);
         run_bin_wrapper<add_op, Tag>(out, "add", bls, brs);
         run_bin_wrapper<subtract_op, Tag>(out, "sub", bls, brs);
         run_bin_wrapper<multiply_op, Tag>(out, "mul", bls, brs);
@@ -180,7 +180,7 @@ int main(int argc, char** argv)
     }
     install();
     sink out(argv[1], std::string("\"cc\":\"") + VERIF_CC + "\"");
-    auto nl = lhs_values<L>(LHS_INDEX * 100 + 3);
+    auto nl = sizeof(L) == 1 ? all_values_or_boundary<L>() : operands<L>(thorough() ? 200 : 20, LHS_INDEX * 100 + 3, thorough() ? 2 : 1);
     run_neg<cnl::saturated_overflow_tag>(out, nl);
     run_neg<cnl::_impl::throwing_overflow_tag>(out, nl);
     run_neg<cnl::trapping_overflow_tag>(out, nl);
